@@ -1,20 +1,99 @@
-//! Resource-specific glue (C07): user types for exported resources, serde-like
-//! impls for handle types.  Minimal until the C07 harness lands.
+//! Resource-specific glue (C07): a user type (unique id, drop notification)
+//! per exported resource trait, `Obs` impls for generated handle types through
+//! their public `handle()` / `from_handle()` / `get()` API, keep/stash hooks.
 use crate::analyze::*;
+use std::fmt::Write;
+
+const SUP: &str = "::rsguest_support";
+
+pub fn trait_index(an: &Analysis, path: &[String], ident: &str) -> Option<usize> {
+    an.traits.iter().position(|x| x.ident == ident && x.path == path)
+}
 
 pub fn user_type_name(an: &Analysis, t: &TraitInfo) -> String {
-    let idx = an.traits.iter().position(|x| x.ident == t.ident && x.path == t.path).unwrap_or(0);
+    let idx = trait_index(an, &t.path, &t.ident).unwrap_or(0);
     format!("UserRes{idx}")
 }
 
-pub fn emit_resource_support(_an: &Analysis, _res_traits: &[&TraitInfo], _o: &mut String, _notes: &mut Vec<String>) {}
+fn root_path(path: &[String], ident: &str) -> String {
+    let mut s = String::from("super");
+    for p in path {
+        s.push_str("::");
+        s.push_str(p);
+    }
+    s.push_str("::");
+    s.push_str(ident);
+    s
+}
 
-pub fn emit_method_prologue(_sig: &syn::Signature, _recv: bool, _o: &mut String) {}
+pub fn emit_resource_support(an: &Analysis, res_traits: &[&TraitInfo], o: &mut String, notes: &mut Vec<String>) {
+    // user types
+    for t in res_traits {
+        let name = user_type_name(an, t);
+        let k = trait_index(an, &t.path, &t.ident).unwrap_or(0);
+        writeln!(o, "pub struct {name} {{ pub id: u32 }}").unwrap();
+        writeln!(o, "impl {name} {{ pub fn create(id: u32) -> Self {{ obs::note(&format!(\"new:{k}:{{id}}\")); {name} {{ id }} }} }}").unwrap();
+        writeln!(o, "impl Drop for {name} {{ fn drop(&mut self) {{ obs::note(&format!(\"drop:{k}:{{}}\", self.id)); }} }}").unwrap();
+        // `-> Self` / `-> Result<Self, E>` of constructors
+        writeln!(o, "impl<'obs> {SUP}::Obs<'obs> for {name} {{").unwrap();
+        writeln!(o, "    fn ser(&self, s: &mut {SUP}::Ser) {{ s.handle(self.id); }}").unwrap();
+        writeln!(o, "    fn de(d: &mut {SUP}::De<'obs>) -> Self {{ let id = d.handle(); {name}::create(id) }}\n}}").unwrap();
+    }
+    // handle types
+    for (ord, h) in an.handles.iter().enumerate() {
+        let ty = root_path(&h.path, &h.ident);
+        if h.exported {
+            let Some(user) = h.bound_trait.as_ref().and_then(|b| trait_index(an, &h.path, b)).map(|i| format!("UserRes{i}")) else {
+                notes.push(format!("exported handle type {} has no matching Guest trait", h.ident));
+                continue;
+            };
+            writeln!(o, "impl<'obs> {SUP}::Obs<'obs> for {ty} {{").unwrap();
+            writeln!(o, "    fn ser(&self, s: &mut {SUP}::Ser) {{ s.handle(self.get::<{user}>().id); }}").unwrap();
+            writeln!(o, "    fn de(d: &mut {SUP}::De<'obs>) -> Self {{ let id = d.handle();").unwrap();
+            writeln!(o, "        match obs::stash::take_exported({ord}, id) {{ Some(b) => *b.downcast::<Self>().unwrap(), None => Self::new({user}::create(id)) }} }}").unwrap();
+            writeln!(o, "    fn keep(self) {{ let id = self.get::<{user}>().id; obs::stash::put_exported({ord}, id, Box::new(self)); }}\n}}").unwrap();
+            // its borrow type
+            for b in an.borrows.iter().filter(|b| b.path == h.path && b.owner.as_deref() == Some(h.ident.as_str())) {
+                let bty = root_path(&b.path, &b.ident);
+                writeln!(o, "impl<'a> {SUP}::Obs<'a> for {bty}<'a> {{").unwrap();
+                writeln!(o, "    fn ser(&self, s: &mut {SUP}::Ser) {{ s.handle(self.get::<{user}>().id); }}").unwrap();
+                writeln!(o, "    fn de(d: &mut {SUP}::De<'a>) -> Self {{ d.unsupported(\"user code cannot create a borrow of its own exported resource\") }}\n}}").unwrap();
+            }
+        } else {
+            writeln!(o, "impl<'obs> {SUP}::Obs<'obs> for {ty} {{").unwrap();
+            writeln!(o, "    fn ser(&self, s: &mut {SUP}::Ser) {{ s.handle(self.handle()); }}").unwrap();
+            writeln!(o, "    fn de(d: &mut {SUP}::De<'obs>) -> Self {{ let h = d.handle();").unwrap();
+            writeln!(o, "        match obs::stash::take_imported({ord}, h) {{ Some(b) => *b.downcast::<Self>().unwrap(), None => d.missing_handle(h, {:?}) }} }}", h.ident).unwrap();
+            writeln!(o, "    fn keep(self) {{ let h = self.handle(); obs::stash::put_imported({ord}, h, Box::new(self)); }}\n}}").unwrap();
+        }
+    }
+    if !an.handles.is_empty() {
+        writeln!(o, "fn res_clear_stash() {{ obs::stash::clear(); }}").unwrap();
+        writeln!(o, "fn res_stash_len() -> usize {{ obs::stash::len() }}").unwrap();
+        writeln!(o, "static RES_HOOKS: ::rsguest_host::res::GuestHooks = ::rsguest_host::res::GuestHooks {{ clear_stash: res_clear_stash, stash_len: res_stash_len }};").unwrap();
+    }
+}
 
-pub fn emit_constructor_body(_o: &mut String) {}
+/// `&self` methods of exported resources report which object they reached.
+pub fn emit_method_prologue(an: &Analysis, t: &TraitInfo, recv: bool, o: &mut String) {
+    if recv {
+        let k = trait_index(an, &t.path, &t.ident).unwrap_or(0);
+        writeln!(o, "            obs::note(&format!(\"self:{k}:{{}}\", self.id));").unwrap();
+    }
+}
 
-pub fn emit_keep_args(_args: &[String], _o: &mut String) {}
+/// End of life of the received arguments: kept (owned handles go to the stash)
+/// or dropped, as the host's script says.
+pub fn emit_dispose_args(args: &[String], o: &mut String) {
+    for a in args {
+        writeln!(o, "            obs::dispose({a});").unwrap();
+    }
+}
 
-pub fn hooks_expr(_an: &Analysis, _res_traits: &[&TraitInfo]) -> String {
-    "None".to_string()
+pub fn hooks_expr(an: &Analysis) -> String {
+    if an.handles.is_empty() {
+        "None".to_string()
+    } else {
+        "Some(&RES_HOOKS)".to_string()
+    }
 }
